@@ -67,6 +67,9 @@ type ErrObj struct {
 	id    int
 	wraps []Value // Iface values wrapped with %w (or joined)
 	tag   string
+	// plain: a dynamically created error with no sentinel anywhere in its chain; its identity is never compared,
+	// so two plain errors merge into one canonical plain error (keeps merged heaps small)
+	plain bool
 }
 
 type MapEntry struct {
@@ -388,6 +391,9 @@ func (c *Ctx) mergeSameShape(g *Term, a, b Value) Value {
 			ey := y.v.(*ErrObj)
 			if ex == ey {
 				return x
+			}
+			if ex.plain && ey.plain {
+				return &Iface{t: x.t, v: c.plainMerged()}
 			}
 			// merged opaque error: remembers both chains under their guards
 			return &Iface{t: x.t, v: &ErrObj{id: c.newID(), tag: "merged", wraps: []Value{&Union{alts: []Alt{{g, x}, {c.tt.Not(g), y}}}}}}
@@ -748,3 +754,27 @@ func (c *Ctx) describe(v Value, depth int) string {
 type engineErr string
 
 func (e engineErr) Error() string { return string(e) }
+
+func (c *Ctx) plainMerged() *ErrObj {
+	if c.plainErr == nil {
+		c.plainErr = &ErrObj{id: c.newID(), tag: "plain", plain: true}
+	}
+	return c.plainErr
+}
+
+func (c *Ctx) isPlainErrValue(v Value) bool {
+	for _, al := range c.alts(v) {
+		iv, ok := al.v.(*Iface)
+		if !ok {
+			return false
+		}
+		if iv.t == nil {
+			continue
+		}
+		e, ok := iv.v.(*ErrObj)
+		if !ok || !e.plain {
+			return false
+		}
+	}
+	return true
+}
